@@ -25,6 +25,7 @@ materializing the defaulted values can make the configuration archive somewhat
 more hermetic.
 """
 
+import dataclasses
 from typing import Any
 
 from fiddle._src import config
@@ -55,6 +56,14 @@ def materialize_defaults(value: Any) -> None:
       parameters = node.__signature_info__.parameters.values()
       for index, arg in enumerate(parameters):
         if arg.default is arg.empty:
+          continue
+        if dataclasses.is_dataclass(
+            node.__fn_or_cls__
+        ) and config._field_uses_default_factory(  # pylint: disable=protected-access
+            node.__fn_or_cls__, arg.name
+        ):
+          # The signature default of such a field is a sentinel, not a value;
+          # the factory still runs when the argument is left unset.
           continue
         if arg.kind == arg.POSITIONAL_ONLY:
           # Positional-only arguments are stored (and set) by index.
